@@ -2,117 +2,11 @@
 import SwV.Common.Drv
 import SwV.Model.C01
 import SwV.Spec.C01
+import SwV.Model.C01Codec
 open SwV.Drv SwV.Model.C01 SwV.Spec.C01
 
 namespace DrvC01
-
-def tokStr (s : String) : String := if s == "-" then "" else s
-def strTok (s : String) : String := if s.isEmpty then "-" else s
-
-def flagsOfNat (n : Nat) : Flags :=
-  { compressed := n % 2 == 1, hasName := n / 2 % 2 == 1, hasMime := n / 4 % 2 == 1,
-    hasLm := n / 8 % 2 == 1, hasTtl := n / 16 % 2 == 1, hasPairs := n / 32 % 2 == 1 }
-def b2n (b : Bool) : Nat := if b then 1 else 0
-def natOfFlags (f : Flags) : Nat :=
-  b2n f.compressed + 2 * b2n f.hasName + 4 * b2n f.hasMime + 8 * b2n f.hasLm + 16 * b2n f.hasTtl + 32 * b2n f.hasPairs
-
-/-- tokens: data flags name mime pairs lm ttlc ttlu -/
-def contentOfToks (a : List String) : Content :=
-  { data := tokStr (a.getD 0 "-"), fl := flagsOfNat (tokNat (a.getD 1 "0")), name := tokStr (a.getD 2 "-"),
-    mime := tokStr (a.getD 3 "-"), pairs := tokStr (a.getD 4 "-"), lm := tokNat (a.getD 5 "0"),
-    ttl := (tokNat (a.getD 6 "0"), tokNat (a.getD 7 "0")) }
-def toksOfContent (c : Content) : List String :=
-  [strTok c.data, toString (natOfFlags c.fl), strTok c.name, strTok c.mime, strTok c.pairs, toString c.lm,
-   toString c.ttl.1, toString c.ttl.2]
-
-def unitOfChar (c : Char) : Nat :=
-  if c == 'm' then 1 else if c == 'h' then 2 else if c == 'd' then 3 else if c == 'w' then 4
-  else if c == 'M' then 5 else if c == 'y' then 6 else 0
-/-- volume TTL token of a `reset` line ("-" or digits+unit, generated by the harness) -/
-def ttlOfTok (s : String) : Nat × Nat :=
-  if s == "-" then (0, 0) else
-  match s.toList.getLast? with
-  | none => (0, 0)
-  | some u => (tokNat (String.ofList s.toList.dropLast), unitOfChar u)
-
-def wToks : WOut → List String
-  | .ok u => ["ok", if u then "1" else "0"]
-  | .ro => ["ro", "0"]
-  | .cookie => ["cookie", "0"]
-  | .ioerr => ["err", "0"]
-def wOfToks (o : List String) : WOut :=
-  match o.getD 0 "" with
-  | "ok" => .ok (o.getD 1 "" == "1")
-  | "ro" => .ro
-  | "cookie" => .cookie
-  | _ => .ioerr
-
-def dToks : DOut → List String
-  | .ok sz => ["ok", toString sz]
-  | .ro => ["ro", "0"]
-def dOfToks (o : List String) : DOut :=
-  if o.getD 0 "" == "ro" then .ro else .ok (tokInt (o.getD 1 "0"))
-
-def rToks : ROut → List String
-  | .notfound => ["notfound", "-1"]
-  | .deleted => ["deleted", "-1"]
-  | .ioerr => ["err", "0"]
-  | .ok n ck _ c => ["ok", toString n, toString ck] ++ toksOfContent c
-def rOfToks (o : List String) : ROut :=
-  match o.getD 0 "" with
-  | "ok" => .ok (tokNat (o.getD 1 "0")) (tokNat (o.getD 2 "0")) 0 (contentOfToks (o.drop 3))
-  | "notfound" => .notfound
-  | "deleted" => .deleted
-  | _ => .ioerr
-
-def mToks : MOut → List String
-  | .w o => wToks o
-  | .d o => dToks o
-  | .r o => rToks o
-  | .unit => ["ok"]
-  | .hr s b => [toString s, strTok b]
-  | .hd s sz => [toString s, match sz with | some z => toString z | none => "-"]
-
-def mOfToks (op : Op) (o : List String) : MOut :=
-  match op with
-  | .write .. => .w (wOfToks o)
-  | .delete .. => .d (dOfToks o)
-  | .read .. => .r (rOfToks o)
-  | .setRO _ => .unit
-  | .hread .. => .hr (tokNat (o.getD 0 "0")) (tokStr (o.getD 1 "-"))
-  | .hdelete .. => .hd (tokNat (o.getD 0 "0")) ((o.getD 1 "-").toInt?)
-
-def opOfLine (ln : Line) : Option Op :=
-  let a := ln.args
-  let id := tokNat (a.getD 0 "0"); let ck := tokNat (a.getD 1 "0")
-  match ln.op with
-  | "w" => some (.write id ck (contentOfToks (a.drop 2)))
-  | "d" => some (.delete id ck)
-  | "r" => some (.read id ck)
-  | "ro" => some (.setRO (a.getD 0 "" == "1"))
-  | "hr" => some (.hread id ck)
-  | "hd" => some (.hdelete id ck)
-  | _ => none
-
-def covOf (st : Vol) (op : Op) (o : MOut) : List String :=
-  let k := match op, o with
-    | .write .., .w (.ok true) => "w.unchanged"
-    | .write id _ _, .w (.ok false) =>
-      (match st.idx id with | none => "w.new" | some e => if e.size < 0 then "w.over-deleted" else if e.size = 0 then "w.over-empty" else "w.overwrite")
-    | .write .., .w .ro => "w.readonly"
-    | .write .., .w .cookie => "w.cookie-mismatch"
-    | .delete .., .d (.ok sz) => if 0 < sz then "d.removed" else "d.noop"
-    | .delete .., .d .ro => "d.readonly"
-    | .read .., .r .notfound => "r.notfound"
-    | .read .., .r .deleted => "r.deleted"
-    | .read .., .r (.ok n ..) => if n = 0 then "r.empty" else "r.data"
-    | .hread id ck, .hr s _ =>
-      if s == 200 then "hr.200" else
-      (match absEntry st id with | some ⟨k, some _⟩ => if k ≠ ck then "hr.404-wrong-cookie" else "hr.404" | _ => "hr.404")
-    | .hdelete .., .hd s _ => s!"hd.{s}"
-    | .setRO _, _ => "ro"
-    | _, _ => "other"
-  ["COV " ++ k]
+open SwV.Codec.C01
 
 structure St where
   vol : Vol := {}
@@ -123,6 +17,7 @@ def stepLine (s : St) (n : Nat) (ln : Line) : St × List String :=
   | "reset" =>
     let ttl := ttlOfTok (ln.args.getD 1 "-")
     ({ vol := Vol.init ttl, kind := ln.args.getD 0 "mem" }, diff n ln ["ok"] ++ [s!"COV reset.{ln.args.getD 0 "mem"}"] ++ (if ttl ≠ (0, 0) then ["COV reset.ttl-volume"] else []))
+  | "stop" => (s, diff n ln ["ok"] ++ ["COV stop"])
   | "sorted" => ({ vol := reopenSorted s.vol, kind := "sorted" }, diff n ln ["ok"] ++ ["COV reset.sorted"])
   | _ =>
     match opOfLine ln with
@@ -133,7 +28,7 @@ def stepLine (s : St) (n : Nat) (ln : Line) : St × List String :=
       let j := match judge s.vol op io with
         | none => []
         | some cls => [specfail n cls (ln.op ++ " " ++ String.intercalate " " (ln.args.take 2))]
-      let cov := covOf s.vol op mo
+      let cov := covOf s.vol op mo ++ (if ln.op == "wf" then ["COV wf.batched-path"] else [])
       ({ s with vol := vol' }, diff n ln (mToks mo) ++ j ++ cov ++ (if s.kind == "sorted" then cov.map (· ++ "@sorted") else []))
 
 end DrvC01
